@@ -1326,6 +1326,12 @@ class BinaryOperator(SymbolicExpression, ABC):
         combined_vars = self.left._unique_variables_.union(self.right._unique_variables_)
         self._cache_.keys = [v.id_ for v in combined_vars.filter(lambda v: not isinstance(v.value, Literal))]
 
+    def _caching_enabled_(self) -> bool:
+        """
+        Whether this operator may serve rows from, and store rows into, its result caches.
+        """
+        return is_caching_enabled()
+
     def _clear_only_my_result_caches_(self) -> None:
         for cache in vars(self).values():
             if isinstance(cache, IndexedCache):
@@ -1359,7 +1365,7 @@ class BinaryOperator(SymbolicExpression, ABC):
         cache_search_count.values[self._node_.name] = cache.search_count
 
     def update_cache(self, values: Dict[int, HashedValue], cache: Optional[IndexedCache] = None):
-        if not is_caching_enabled():
+        if not self._caching_enabled_():
             return
         cache = self._cache_ if cache is None else cache
         cache.insert({k: v for k, v in values.items() if k in cache.keys}, output=self._is_false_)
@@ -1575,7 +1581,7 @@ class Comparator(BinaryOperator):
             yield sources
             return
 
-        if is_caching_enabled():
+        if self._caching_enabled_():
             if self._cache_.check(sources):
                 yield from self.yield_final_output_from_cache(sources)
                 return
@@ -1669,7 +1675,7 @@ class AND(LogicalOperator):
                     yield left_value
                     continue
 
-                if is_caching_enabled() and self.right_cache.check(left_value):
+                if self._caching_enabled_() and self.right_cache.check(left_value):
                     yield from self.yield_final_output_from_cache(left_value, self.right_cache)
                     continue
 
@@ -1737,7 +1743,7 @@ class Union(OR):
         sources = sources or {}
         self._yield_when_false_ = yield_when_false
 
-        if is_caching_enabled() and self._cache_.check(sources):
+        if self._caching_enabled_() and self._cache_.check(sources):
             yield from self.yield_final_output_from_cache(sources)
             return
 
@@ -1808,7 +1814,7 @@ class ElseIf(OR):
                 any_left = True
                 left_value.update(sources)
                 if self.left._is_false_:
-                    if is_caching_enabled() and self.right_cache.check(left_value):
+                    if self._caching_enabled_() and self.right_cache.check(left_value):
                         yield from self.yield_final_output_from_cache(left_value, self.right_cache)
                         continue
                     right_prev = self.right._eval_parent_
